@@ -74,6 +74,13 @@ STRENGTHENED = {
              "native dry-run of the existing families missed it, before the first CrossHair run",
     "C12_4": "needs a body of length 3 with a repeated symbol; condition c12_b3 was added after the native dry-run of the "
              "existing families missed it, before the first CrossHair run",
+    "C16_4": "needs an operand state called 'star'; condition c16_star_names was written after reading the description "
+             "and before the first run",
+    "C17_3": "missed at first (needs a duplication below a production, 5 variables); added condition c17_dup",
+    "C17_4": "missed at first (the regular operands were DFAs, which have no epsilon moves); added condition "
+             "c17_inter_eps with EpsilonNFA operands",
+    "C18_4": "needs two successive unifications into one receiver over three features; condition c18_unify_chain was "
+             "added after a native dry-run of a first two-feature version missed it, before the first CrossHair run",
     "C19_4": "missed at first (no history edited the automaton itself); added condition c19_fa_edit",
     "C20_5": "C20 had no transducer condition; c20_fst was written after reading the description and before the first run",
 }
